@@ -65,7 +65,7 @@ func (e *evidence) merge(b *Batch, r *Result, bb *builtBin) {
 	}
 	found := false
 	for _, m := range e.batches {
-		if m["scenario"] == b.Scen && m["cfg"] == b.Cfg && m["pkg"] == b.Pkg {
+		if m["scenario"] == b.Scen && m["cfg"] == b.Cfg && m["pkg"] == b.Pkg && m["module"] == modName(b) {
 			m["runs"] = m["runs"].(int) + r.Runs
 			m["steps"] = m["steps"].(int64) + r.Steps
 			if r.WallS > m["max_worker_wall_s"].(float64) {
@@ -75,9 +75,16 @@ func (e *evidence) merge(b *Batch, r *Result, bb *builtBin) {
 		}
 	}
 	if !found {
-		e.batches = append(e.batches, map[string]interface{}{"scenario": b.Scen, "cfg": b.Cfg, "pkg": b.Pkg, "runs": r.Runs, "steps": r.Steps,
+		e.batches = append(e.batches, map[string]interface{}{"scenario": b.Scen, "cfg": b.Cfg, "pkg": b.Pkg, "module": modName(b), "runs": r.Runs, "steps": r.Steps,
 			"max_worker_wall_s": r.WallS, "real_components": b.Real, "stub_components": b.Stub, "race_detector": !b.NoRace, "instrumentation": bb.stats})
 	}
+}
+
+func modName(b *Batch) string {
+	if b.Module == "root" {
+		return "root"
+	}
+	return "v2"
 }
 
 func (e *evidence) write(wall float64) {
